@@ -5,6 +5,8 @@ From TS Require Import Model.TopsortAlgo Model.Topsort Model.Lang.Common.
 From TS Require Import Model.Lang.TypeScript Model.Lang.Kotlin Model.Lang.Swift Model.Lang.Scala Model.Lang.Go Model.Lang.Python.
 From TS Require Import Spec.Lexers Spec.C15Spec Spec.C15Render.
 From TS Require Proofs.C15_Front Proofs.C15_Replace Proofs.C15 Proofs.C15_Render Proofs.C15_Kotlin Proofs.C15_Go Proofs.C15_Swift Proofs.C15_Python Proofs.C15_TypeScript.
+From TS Require Import Spec.C15RenderGo.
+From TS Require Proofs.C15_GoItem.
 Import ListNotations.
 From TS Require Props.C15.
 
@@ -262,3 +264,30 @@ Goal forall (cfg : kt_config),
     c15_contained C15kt LCode (mark (c15_file_pieces C15kt parts)) = true.
 Proof. exact Props.C15.C15_kt_item_line_free. Qed.
 Print Assumptions Props.C15.C15_kt_item_line_free.
+Goal forall (uc : unicode) (cfg : go_config) custom_structs,
+  unicode_ok uc ->
+  c15_go_mappings_ok (go_type_mappings cfg) = true ->
+  forallb (forallb is_ascii) (go_uppercase_acronyms cfg) = true ->
+  forall it st text st',
+  c15_go_item_ok it = true ->
+  go_write_item uc cfg custom_structs it st = Ok (text, st') ->
+  exists parts,
+    text = text_of (c15_file_pieces C15go parts) /\
+    docs_of (c15_file_pieces C15go parts) = c15_item_docs_helpers_first it /\
+    c15_contained C15go LCode (mark (c15_file_pieces C15go parts)) = forallb safe_go (c15_item_docs_helpers_first it).
+Proof. exact Props.C15.C15_go_item. Qed.
+Print Assumptions Props.C15.C15_go_item.
+Goal forall (uc : unicode) (cfg : go_config) custom_structs,
+  unicode_ok uc ->
+  c15_go_mappings_ok (go_type_mappings cfg) = true ->
+  forallb (forallb is_ascii) (go_uppercase_acronyms cfg) = true ->
+  forall it st text st',
+  c15_go_item_ok it = true ->
+  Forall (fun d => safe_line eol_lf_cr d = true) (c15_item_docs it) ->
+  go_write_item uc cfg custom_structs it st = Ok (text, st') ->
+  exists parts,
+    text = text_of (c15_file_pieces C15go parts) /\
+    docs_of (c15_file_pieces C15go parts) = c15_item_docs_helpers_first it /\
+    c15_contained C15go LCode (mark (c15_file_pieces C15go parts)) = true.
+Proof. exact Props.C15.C15_go_item_line_free. Qed.
+Print Assumptions Props.C15.C15_go_item_line_free.
